@@ -209,14 +209,23 @@ class Parser(object):
             self._parser_error(str(e), t.lineno(3), t.lexpos(3))
             nodes = []
 
+        def declare(decls, decl):
+            known = self.typedecls.get(decl.name, self.constdecls.get(decl.name, decl))
+            self._parser_check(
+                known is decl,
+                "name '{}' redefined".format(decl.name),
+                t.lineno(3), t.lexpos(3)
+            )
+            decls[decl.name] = decl
+
         for node in nodes:
             if isinstance(node, model.Constant):
-                self.constdecls[node.name] = node
+                declare(self.constdecls, node)
             if isinstance(node, model.Enum):
                 for mem in node.members:
-                    self.constdecls[mem.name] = mem
+                    declare(self.constdecls, mem)
             if isinstance(node, (model.Typedef, model.Enum, model.Struct, model.Union)):
-                self.typedecls[node.name] = node
+                declare(self.typedecls, node)
 
         node = model.Include(stem, nodes)
         self.nodes.append(node)
